@@ -278,9 +278,16 @@ func drive(p *propDef, tier, replayPath string) int {
 	}
 	inconclusive := []string{}
 	exhaustive := false
+	harnessErr := false
 	for _, co := range outs {
 		if co.timedOut {
 			inconclusive = append(inconclusive, fmt.Sprintf("shard %d: watchdog fired (log %s)", co.shard, co.logPath))
+			continue
+		}
+		if co.fatal != "" && strings.HasSuffix(co.fatal, "@ ") {
+			// a crash with no library frame on the stack is the harness's own fault
+			fmt.Printf("HARNESS-ERROR property=%s shard %d: %s (log %s)\n", p.ID, co.shard, co.fatal, co.logPath)
+			harnessErr = true
 			continue
 		}
 		if co.fatal != "" {
@@ -374,6 +381,9 @@ func drive(p *propDef, tier, replayPath string) int {
 		fmt.Printf("VIOLATION property=%s replay=%s\n", p.ID, rp)
 		fmt.Printf("  signature: %s (seen %d×)\n  %s\n", sig, v.Count, firstLines(v.Detail, 6))
 		exit = 1
+	}
+	if harnessErr && exit == 0 {
+		exit = 2
 	}
 	if exit == 0 && len(inconclusive) > 0 {
 		for _, s := range inconclusive {
